@@ -376,6 +376,27 @@ func genPipePlan(seed int64, o PipeGenOpts) *PipePlan {
 								m.Sets = append(m.Sets, model.Set{Kind: model.SetRaw, RawID: uint16(4 + r.Intn(200)), RawBody: make([]byte, fill)})
 							}
 						}
+						// whatever was appended above (undecodable sets, fillers): the
+						// datagram must fit into the collector's receive buffer, or the
+						// collector rightly sees a cut message; drop trailing raw sets,
+						// give the message up if that is not enough
+						encLen := func() int {
+							enc, _ := m.Encode(func(id uint16) *model.Template {
+								for ti := range fe.tpls {
+									if fe.tpls[ti].ID == id {
+										return &fe.tpls[ti]
+									}
+								}
+								return nil
+							})
+							return len(enc)
+						}
+						for encLen() > p.Cfg.udpSize(proto) && len(m.Sets) > 1 && m.Sets[len(m.Sets)-1].Kind == model.SetRaw {
+							m.Sets = m.Sets[:len(m.Sets)-1]
+						}
+						if encLen() > p.Cfg.udpSize(proto) {
+							continue
+						}
 						id := add(Delivery{Phase: ph, AtUs: at(), Proto: proto, Exporter: fe.idx, Abs: m})
 						if o.Benign && r.Intn(8) == 0 {
 							add(Delivery{Phase: ph, AtUs: at(), Proto: proto, Exporter: fe.idx, Abs: m, DupOf: id + 1})
